@@ -4,7 +4,7 @@ CONSTANTS
   MaxNel = 3
   MaxLen = 14
 INIT Init
-NEXT Next
+NEXT NextSim
 VIEW View
 INVARIANTS TypeOK AlgoIsProperty HonestExact NoForgery MarkedAllValid
 INVARIANT EmitAtEnd
